@@ -318,27 +318,18 @@ func (fx *FnCtx) mergeStates(caps []*capture, prefixConds []string) *State {
 		for k := range c.st.heap {
 			keys[k] = true
 		}
-		if c.st.epoch != base.epoch || len(c.st.kpre) != len(base.kpre) || len(c.st.kep) != len(base.kep) {
+		if c.st.epoch != base.epoch || len(c.st.kpre) != len(base.kpre) {
 			sameEpoch = false
 		}
 	}
 	if sameEpoch {
 		for _, c := range caps[1:] {
-			for k, e := range c.st.kep {
-				if base.kep[k] != e {
-					sameEpoch = false
-				}
-			}
 			for i, pe := range c.st.kpre {
 				if base.kpre[i] != pe {
 					sameEpoch = false
 				}
 			}
 		}
-	}
-	// every heap key known so far is materialised in every captured state, so that nothing known on all paths is lost
-	for k := range fx.keySorts {
-		keys[k] = true
 	}
 	for k := range keys {
 		sort, ok := fx.keySorts[k]
@@ -364,6 +355,46 @@ func (fx *FnCtx) mergeStates(caps []*capture, prefixConds []string) *State {
 		m.epoch = fx.nfresh
 		m.kep = map[string]int{}
 		m.kpre = nil
+	} else {
+		// same base epoch on all paths: never-touched keys keep their identity; keys havocked on some path only
+		// (and never read, so not materialised) are unknown from here on
+		allk := map[string]bool{}
+		for _, c := range caps {
+			for k := range c.st.kep {
+				allk[k] = true
+			}
+		}
+		m.kep = map[string]int{}
+		for k := range allk {
+			if _, mat := m.heap[k]; mat {
+				continue
+			}
+			if sort := fx.knownSort(k); sort != "" {
+				var ts []string
+				for _, c := range caps {
+					ts = append(ts, c.st.heapGet(k, sort))
+				}
+				if same(ts) {
+					m.heap[k] = ts[0]
+				} else {
+					m.heap[k] = pick(ts)
+				}
+				continue
+			}
+			v0, ok0 := base.kep[k]
+			agree := ok0
+			for _, c := range caps[1:] {
+				if v, ok := c.st.kep[k]; !ok || v != v0 {
+					agree = false
+				}
+			}
+			if agree {
+				m.kep[k] = v0
+			} else {
+				fx.nfresh++
+				m.kep[k] = fx.nfresh
+			}
+		}
 	}
 	var tops []string
 	for _, c := range caps {
@@ -409,3 +440,24 @@ func (fx *FnCtx) assertCaptured(caps []*capture) {
 }
 
 var _ = fmt.Sprint
+
+// knownSort: SMT sort of ghost / model heap keys that can be determined without having been read before.
+func (fx *FnCtx) knownSort(k string) string {
+	if s, ok := fx.keySorts[k]; ok {
+		return s
+	}
+	if strings.HasPrefix(k, "G|") {
+		if g, ok := fx.eng.CS.GVars[k[2:]]; ok {
+			return g.Sort
+		}
+	}
+	switch k {
+	case "T|dur", "T|fn":
+		return "(Array Int Int)"
+	case "T|armed", "X|closed":
+		return "(Array Int Bool)"
+	case "T|now":
+		return "Int"
+	}
+	return ""
+}
